@@ -103,6 +103,7 @@ impl<'a> RawDictResolver<'a> {
 // R11: `impl SplitUnitResolver for RawDictResolver` checked as an inherent fn of the same body;
 // R14c: `opt.and_then(|data| { ..loop with return.. })` in tail position as a match (same control flow)
 //@extract sudachi/src/dic/build/resolve.rs :: impl SplitUnitResolver for RawDictResolver<'_> :: fn resolve_inline
+//@  twin
 //@  rw R14c 1 custom
 //@  | self\.data\.get\(surface\)\.and_then\(\|data\| \{
 //@  > match self.data.get(surface) { None => None, Some(data) => {
